@@ -20,6 +20,20 @@ SubDupQ == [c \in Client |-> << [kind |-> "single", invs |-> <<"i1">>],
                                 [kind |-> "single", invs |-> <<"i2">>],
                                 [kind |-> "dup", invs |-> <<"i1">>] >>]
 
+\* C03: enumerate every class of stranded invocation instead of stopping at the first
+MCInit == TLCSet(3, {}) /\ Init
+MCSpec == MCInit /\ [][Next]_vars
+StrandedClasses ==
+  {<<{<<x[1], x[2]>> : x \in {y \in c[2] : y[3] = i}}, St(i)>> :
+      c \in crashes, i \in {j \in accepted : ~Safe(j)}}
+CollectStranded ==
+  \A cl \in StrandedClasses :
+     IF cl \in TLCGet(3) THEN TRUE ELSE PrintT(<<"STRANDED", cl[1], cl[2]>>) /\ TLCSet(3, TLCGet(3) \cup {cl})
+
+SubMix == [c \in Client |-> << [kind |-> "single", invs |-> <<"i1">>],
+                               [kind |-> "batch", invs |-> <<"i2">>] >>]
+RetryOk == [i \in Inv |-> IF i = "i1" THEN <<"retry", "ok">> ELSE <<"ok">>]
+
 Bounded == /\ \A i \in Inv : execs[i] <= 3 /\ Len(changes[i]) <= 9
            /\ Len(queue) <= 4
 =============================================================================
